@@ -344,7 +344,8 @@ def build(spec, group=None):
             for order_k, j in enumerate(nd["impls"]):
                 I = type("I_%s_%d_%d" % (tag, i, order_k), (b.specset,), {"__module__": modname, "n%d" % i: b.comps[j]})
                 b.extra.append(I)
-            dr.set_enabled(p, nd["enabled"])
+            if not nd["enabled"]:
+                dr.set_enabled(p, False)
             b.comps.append(p)
             continue
         body = _make_body(b, i, nd, tag, modname)
@@ -368,7 +369,8 @@ def build(spec, group=None):
         else:
             deco = KIND_CLASSES[kind](*written, optional=optional, **kw)
         c = deco(body)
-        dr.set_enabled(c, nd["enabled"])
+        if not nd["enabled"]:
+            dr.set_enabled(c, False)      # enabled is the default: no entry is created for enabled components
         b.comps.append(c)
     b.index = dict((c, i) for i, c in enumerate(b.comps))
     b._junk = junk_keep
